@@ -67,6 +67,7 @@ def _e1_shards(tier):
     profiles += [{"open": o, "exc": e} for o in range(1, I.N_OPEN) for e in (0, 3)]
     profiles += [{"fin": f, "exc": e} for f in (1, 2) for e in (0, 4)]
     profiles += [{"msgs": 1, "msg": 4, "exc": 7, "ext": x} for x in (1, 3, 9, 13)]
+    profiles += [{"unentered": 1, "msgs": 0}, {"unentered": 1, "exc": 7, "ext": 1}, {"unentered": 1, "exc": 3}]
     # finish(exc) called while the action is still current (style 6), with working / raising / colliding extractors
     profiles += [{"open": 6, "exc": 7, "ext": x} for x in (1, 2, 4)] + [{"exc": 7, "xcollide": 1}, {"open": 6, "exc": 7, "xcollide": 1}]
     # extractors registered only after an action of that class has already failed once
